@@ -526,6 +526,18 @@ func (o SObs) Text(st SStep) string {
 
 // Snapshot is a canonical text of everything C04/C09/C10 require to be unchanged.
 func (x *SRun) Snapshot() string {
+	// a wedged server (a lock that is never released) must not wedge the harness
+	ch := make(chan string, 1)
+	go func() { ch <- x.snapshot() }()
+	select {
+	case s := <-ch:
+		return s
+	case <-time.After(Watchdog):
+		return fmt.Sprintf("HANG: the RIB could not be read within %v (%d)\n", Watchdog, time.Now().UnixNano())
+	}
+}
+
+func (x *SRun) snapshot() string {
 	r := x.D.S.VerifRIB()
 	c, _ := r.RIBContents()
 	id, m := x.D.S.VerifElection()
@@ -547,6 +559,17 @@ func (x *SRun) Snapshot() string {
 
 // FinalCoq prints the model's sfinal for the current state.
 func (x *SRun) FinalCoq() string {
+	ch := make(chan string, 1)
+	go func() { ch <- x.finalCoq() }()
+	select {
+	case s := <-ch:
+		return s
+	case <-time.After(Watchdog):
+		return "mk_sfinal [] [] None None (* HANG: the RIB could not be read *)"
+	}
+}
+
+func (x *SRun) finalCoq() string {
 	r := x.D.S.VerifRIB()
 	c, _ := r.RIBContents()
 	id, m := x.D.S.VerifElection()
